@@ -48,7 +48,7 @@ func stamp(lo, hi int, pick uint64) time.Time {
 	return a.Add(b.Sub(a) / 2).Truncate(time.Minute)
 }
 
-func (e *tqEnv) field(q string, nsv bool, inst [][2]int) (string, error) {
+func (e *tqEnv) field(q string, nsv bool, inst [][2]int, multi [][]int) (string, error) {
 	name := "f" + strings.ToLower(q)
 	if nsv {
 		name = "n" + strings.ToLower(q)
@@ -64,6 +64,28 @@ func (e *tqEnv) field(q string, nsv bool, inst [][2]int) (string, error) {
 		ts := pqlTime(stamp(in[0], in[1], behav.Hash64(fmt.Sprintf("%s/%d/%d", name, i, e.seed))))
 		fmt.Fprintf(&sb, "Set(%d, %s=0, %s) Set(%d, %s=%d, %s) ", tqCol(i), name, ts, tqCol(i), name, 1+i, ts)
 		if sb.Len() > 60000 || i == len(inst)-1 {
+			if _, err := query(e.m, e.index, sb.String()); err != nil {
+				return "", fmt.Errorf("loading %s: %v", name, err)
+			}
+			sb.Reset()
+		}
+	}
+	// columns shared by two or three instants: the same bit set with several timestamps, in
+	// ascending order for even columns, descending for odd ones
+	for m, set := range multi {
+		col := tqCol(len(inst) + m)
+		idx := sortedInts(set)
+		if m%2 == 1 {
+			for i, j := 0, len(idx)-1; i < j; i, j = i+1, j-1 {
+				idx[i], idx[j] = idx[j], idx[i]
+			}
+		}
+		for _, i1 := range idx {
+			in := inst[i1-1]
+			ts := pqlTime(stamp(in[0], in[1], behav.Hash64(fmt.Sprintf("%s/m%d/%d/%d", name, m, i1, e.seed))))
+			fmt.Fprintf(&sb, "Set(%d, %s=0, %s) ", col, name, ts)
+		}
+		if sb.Len() > 60000 || m == len(multi)-1 {
 			if _, err := query(e.m, e.index, sb.String()); err != nil {
 				return "", fmt.Errorf("loading %s: %v", name, err)
 			}
@@ -86,6 +108,7 @@ type tqFail struct{ call, symptom, detail string }
 
 func (e *tqEnv) run(c *tqCase, res *behav.Result) (fails []tqFail, q string, inc string) {
 	var inst [][2]int
+	var multi [][]int
 	var rg behav.Step
 	for _, st := range c.Beh {
 		switch st.Str("op") {
@@ -95,6 +118,9 @@ func (e *tqEnv) run(c *tqCase, res *behav.Result) (fails []tqFail, q string, inc
 				p := behav.ToInts(x)
 				inst = append(inst, [2]int{p[0], p[1]})
 			}
+			for _, x := range behav.ToList(st["multi"]) {
+				multi = append(multi, behav.ToInts(x))
+			}
 		case "Range":
 			rg = st
 		}
@@ -102,14 +128,14 @@ func (e *tqEnv) run(c *tqCase, res *behav.Result) (fails []tqFail, q string, inc
 	if rg == nil || q == "" {
 		return nil, q, "behaviour without Field / Range"
 	}
-	name, err := e.field(q, c.NSV, inst)
+	name, err := e.field(q, c.NSV, inst, multi)
 	if err != nil {
 		return nil, q, err.Error()
 	}
 	from, to := rg.Int("from"), rg.Int("to")
 	want := sortedInts(rg.Ints("cols"))
 	if c.Corrupt {
-		want = append(want, len(inst)+5)
+		want = append(want, 3*len(inst)+5)
 	}
 	fs, ts := pqlTime(hourTime(from)), pqlTime(hourTime(to))
 	fail := func(call, sym, format string, a ...interface{}) {
@@ -146,8 +172,14 @@ func (e *tqEnv) run(c *tqCase, res *behav.Result) (fails []tqFail, q string, inc
 		}
 	}
 	// Row of a single instant's own row
-	if len(want) > 0 && !c.Corrupt {
-		i := want[int(behav.Hash64(pql)%uint64(len(want)))]
+	var own []int
+	for _, i := range want {
+		if i < len(inst) {
+			own = append(own, i)
+		}
+	}
+	if len(own) > 0 && !c.Corrupt {
+		i := own[int(behav.Hash64(pql)%uint64(len(own)))]
 		p2 := fmt.Sprintf("Row(%s=%d, from='%s', to='%s')", name, 1+i, fs, ts)
 		if r, err := query(e.m, e.index, p2); err != nil || len(r) != 1 {
 			fail("Row", "error", "%s: %v", p2, err)
@@ -159,7 +191,7 @@ func (e *tqEnv) run(c *tqCase, res *behav.Result) (fails []tqFail, q string, inc
 	wantRows := []int{}
 	if len(want) > 0 {
 		wantRows = append(wantRows, 0)
-		for _, i := range want {
+		for _, i := range own {
 			wantRows = append(wantRows, 1+i)
 		}
 	}
